@@ -75,7 +75,7 @@ func isWriteCallOn(i ssa.Instruction, dests []ssa.Value) (string, bool) {
 
 func ruleC08(c *Ctx, r *Report) {
 	a := c.anchors()
-	if !requireAnchors(r, a, "C08-anchor") {
+	if !requireAnchors(r, a, "C08-anchor", "stream", "redact") {
 		return
 	}
 	sf := a.StreamFn
